@@ -380,6 +380,109 @@ def run_history(ctx, rng, n):
         ctx.violation(mech, p, case)
 
 
+COLD_STATEMENTS = [
+    'SELECT account, sum(position) AS s GROUP BY account ORDER BY account',
+    'SELECT date, account, position, balance WHERE account ~ "Assets"',
+    'SELECT date, account, position, balance WHERE account ~ "assets:bank"',
+    'SELECT date, account, number WHERE account ~ "^Expenses" AND number > 10 ORDER BY date, account, number',
+    'SELECT account, sum(position) AS s FROM OPEN ON 2019-06-01 CLOSE ON 2020-06-01 CLEAR GROUP BY account ORDER BY account',
+    'SELECT account, sum(position) AS s FROM OPEN ON 2019-06-01 CLOSE ON 2020-06-01 GROUP BY account ORDER BY account',
+    'SELECT account, count(*) AS n FROM CLOSE ON 2020-01-01 GROUP BY 1 ORDER BY 1',
+    'SELECT account, count(*) AS n FROM CLOSE GROUP BY 1 ORDER BY 1',
+    'SELECT date, narration, number WHERE number > 100 AND currency = "USD" ORDER BY date, number',
+    'SELECT date, narration, number WHERE number > 5 AND currency = "EUR" ORDER BY date, number',
+    'SELECT date, account WHERE account IN (SELECT account FROM #accounts WHERE account ~ "Expenses") ORDER BY 1, 2',
+    'SELECT date, account WHERE account IN (SELECT account FROM #accounts WHERE account ~ "Income") ORDER BY 1, 2',
+    'SELECT DISTINCT payee ORDER BY payee', 'SELECT DISTINCT root(account, 1) AS r ORDER BY r', 'SELECT DISTINCT root(account, 2) AS r ORDER BY r',
+    'SELECT DISTINCT parent(account) AS p, leaf(account) AS l ORDER BY p, l', 'SELECT DISTINCT account, root(account, 3) AS a, root(account, 1) AS b, parent(account) AS c ORDER BY account',
+    'BALANCES', 'BALANCES WHERE account ~ "Assets"', 'BALANCES AT cost FROM year = 2020', 'JOURNAL "Bank"', 'JOURNAL "Bank" FROM year = 2020', 'JOURNAL', 'JOURNAL AT units FROM flag = "*"', 'JOURNAL AT units',
+    'BALANCES FROM year = 2020', 'BALANCES AT cost', 'BALANCES AT units FROM year = 2019', 'JOURNAL "Cash"', 'JOURNAL "Bank" AT cost', 'JOURNAL "Cash" FROM year = 2020',
+    'SELECT year, month, sum(cost(position)) AS c GROUP BY year, month ORDER BY year, month',
+    'SELECT account, first(date) AS f, last(date) AS l, min(number) AS mn, max(number) AS mx GROUP BY account ORDER BY account',
+    'SELECT type, count(*) AS n FROM #entries GROUP BY type ORDER BY type',
+    'SELECT date, account, balance FROM year >= 2019 AND year <= 2020',
+    'SELECT account, balance FROM OPEN ON 2020-01-01 WHERE account ~ "Assets"',
+    'SELECT account, open_date(account) AS o, close_date(account) AS c, open_meta(account, "note") AS n FROM #accounts ORDER BY account',
+    'SELECT DISTINCT currency, getprice(currency, "USD") AS p, getprice(currency, "USD", 2020-01-01) AS q, currency_meta(currency, "name") AS n ORDER BY currency',
+    'SELECT date, account, convert(position, "USD") AS c, value(position) AS v, convert(position, "EUR", 2020-06-30) AS e ORDER BY date, account',
+    'SELECT date, account, has_account("Food") AS f, has_account("Broker") AS b, any_meta("note") AS n, entry_meta("ref") AS r',
+    'SELECT date_trunc("month", date) AS m, date_trunc("year", date) AS y, date_bin("3 months", date, 2019-01-31) AS b, count(*) AS n GROUP BY 1, 2, 3 ORDER BY 1, 2, 3',
+    'SELECT quarter(date) AS q, weekday(date) AS w, yearmonth(date) AS ym, count(*) AS n GROUP BY 1, 2, 3 ORDER BY 1, 2, 3',
+    'SELECT account, year, sum(position) AS s GROUP BY 1, 2 PIVOT BY 1, 2',
+    'SELECT account, currency, sum(number) AS s GROUP BY 1, 2 PIVOT BY 1, 2',
+    'SELECT payee, narration, str(number) AS s, length(narration) AS l, upper(payee) AS u WHERE payee IS NOT NULL ORDER BY date, account, number',
+    'SELECT narration, grep("[a-z]+", narration) AS g, grepn("(a)(.)", narration, 2) AS g2, subst("a", "A", narration) AS su, splitcomp(account, ":", 1) AS sc ORDER BY date, account, number',
+    'SELECT narration, grep("[A-Z]+", narration) AS g, grepn("(A)(.)", narration, 1) AS g2, subst("A", "a", narration) AS su, splitcomp(account, ":", 0) AS sc ORDER BY date, account, number',
+    'SELECT account, account_sortkey(account) AS k, possign(number, account) AS ps ORDER BY k, date, number',
+    'SELECT date, account, units(position) AS u, cost(position) AS c, weight AS w, price AS p WHERE cost_number IS NOT NULL',
+    'SELECT tags, links, count(*) AS n FROM #transactions GROUP BY tags, links ORDER BY n',
+    'SELECT date, comment FROM #notes ORDER BY date, comment', 'SELECT date, currency, amount FROM #prices ORDER BY date, currency',
+    'SELECT date, account, amount FROM #balances ORDER BY date, account', 'SELECT name, date FROM #commodities ORDER BY name',
+    'SELECT account, sum(position) AS s, count(*) AS n WHERE "trip" IN tags GROUP BY account ORDER BY account',
+    'SELECT coalesce(payee, narration) AS who, sum(number) AS s WHERE currency = "USD" GROUP BY who ORDER BY who',
+    'SELECT account, filter_currency(sum(position), "USD") AS u, only("USD", sum(position)) AS o GROUP BY account ORDER BY account',
+    'SELECT 1 + 2 * 3 AS a, "x" ~ "X" AS b, 2020-01-31 + 1 AS c, round(2.567, 2) AS d, 7 / 2 AS e, 7 % 4 AS f LIMIT 1',
+    'SELECT 1 + 2 * 3.0 AS a, "x" ~ "y" AS b, 2020-02-28 + 1 AS c, round(2.567, 1) AS d, 7.0 / 2 AS e, 7 % 4.0 AS f LIMIT 1',
+]
+
+
+def cold_process_part(ctx):
+    """Process-wide history independence: a corpus of statements is executed at the end of this long-lived process (after
+    everything the shard has executed so far, twice, on long-lived connections), and in a NEW interpreter that executes
+    every statement on a connection of its own, in the reverse order. The normalised outcomes must agree."""
+    import json
+    import os
+    import subprocess
+    import sys
+    from .. import coldref
+    rng = ctx.rng('cold')
+    leds = {'A': ledgers.gen_ledger(rng, ntxn=rng.randint(6, 12)), 'B': ledgers.gen_ledger(rng, ntxn=rng.randint(6, 12))}
+    conns = {k: engine.connection(ledger=v.loaded) for k, v in leds.items()}
+    stmts = rng.sample(COLD_STATEMENTS, ctx.pick(24, len(COLD_STATEMENTS)))
+    jobs = [[i, k, t] for i, (k, t) in enumerate((k, t) for t in stmts for k in ('A', 'B'))]
+    rng.shuffle(jobs)
+    for j, (jid, k, t) in enumerate(jobs):
+        jobs[j][0] = j
+    # warm-up in another order, then the recorded pass
+    for jid, k, t in rng.sample(jobs, len(jobs)):
+        coldref.outcome(conns[k], t)
+    hot = {str(jid): coldref.outcome(conns[k], t) for jid, k, t in jobs}
+    env = dict(os.environ)
+    env['PYTHONHASHSEED'] = '0'
+    here = os.path.dirname(os.path.dirname(os.path.dirname(os.path.abspath(__file__))))
+    env['PYTHONPATH'] = os.pathsep.join(x for x in (os.environ.get('BEANQUERY_VERIF_REPO'), here) if x)
+    try:
+        p = subprocess.run([sys.executable, '-m', 'bqverif.coldref'], input=json.dumps({'ledgers': {k: v.text for k, v in leds.items()}, 'jobs': jobs}),
+                           capture_output=True, text=True, timeout=600, env=env, cwd=here)
+        cold = json.loads(p.stdout)
+    except Exception as exc:  # noqa: BLE001
+        ctx.count('inconclusive.cold_process_failed')
+        ctx.notes.append(f'cold reference process failed: {exc!r}')
+        return
+    alt = os.environ.get('BEANQUERY_VERIF_REPO')
+    if alt and not cold.get('beanquery', '').startswith(alt):
+        ctx.count('inconclusive.cold_process_failed')
+        ctx.notes.append(f"cold reference process imported {cold.get('beanquery')}")
+        return
+    ctx.count('obs.cold_process_runs')
+    for jid, k, t in jobs:
+        a, b = hot[str(jid)], cold['results'].get(str(jid))
+        ctx.count('obs.cold_process_statements')
+        ctx.case(('cold', leds[k].text, t), a.get('ok', False) and len(a.get('rows', [])) >= 2)
+        if a != b:
+            what = 'outcome'
+            if a.get('ok') and b and b.get('ok'):
+                if a['names'] != b['names'] or a['types'] != b['types']:
+                    what = f"description {list(zip(a['names'], a['types']))} vs {list(zip(b['names'], b['types']))}"
+                else:
+                    n = next((i for i, (x, y) in enumerate(zip(a['rows'] + [None], b['rows'] + [None])) if x != y), 0)
+                    what = f"row {n}: {a['rows'][n] if n < len(a['rows']) else None} vs {b['rows'][n] if n < len(b['rows']) else None}"
+            ctx.violation('c09.process_history_dependence',
+                          f'{t} (ledger {k}): at the end of a long-lived process and in a new interpreter the outcomes differ — {what}',
+                          {'statement': t, 'ledger': leds[k].text, 'long_lived': str(a)[:600], 'new_interpreter': str(b)[:600]})
+            return
+
+
 def run(ctx):
     engine.bq()
     for n in range(ctx.pick(90, 2500)):
@@ -394,6 +497,8 @@ def run(ctx):
         if ctx.out_of_time():
             break
         run_history(ctx, ctx.rng('hist', n), n)
+    if ctx.shard % 4 == 0 or not ctx.quick:
+        cold_process_part(ctx)
 
 
 def replay(ctx, case):
@@ -408,6 +513,8 @@ def finalize(merged):
     for k in ('obs.param_cases', 'obs.fold_cases', 'obs.histories', 'obs.digest_comparisons', 'obs.mode.parsed', 'obs.executemany'):
         if c.get(k, 0) == 0:
             reasons.append(f'{k} == 0')
+    if c.get('inconclusive.cold_process_failed', 0) or c.get('obs.cold_process_statements', 0) == 0:
+        reasons.append('the cold-process reference did not run')
     if c.get('obs.fold_really_folded', 0) == 0:
         reasons.append('no constant expression was actually folded by the compiler')
     return reasons
